@@ -6,10 +6,13 @@ import (
 	"bytes"
 	"encoding/json"
 	"fmt"
+	"strings"
 	"sync"
 	"testing"
 	"time"
 
+	redispb "github.com/samaritan-proxy/samaritan/pb/config/protocol/redis"
+	"github.com/samaritan-proxy/samaritan/utils/verifpoint"
 	"pgregory.net/rapid"
 
 	"verif/harness/gen"
@@ -28,7 +31,7 @@ type verdict struct{ sig, msg string }
 // (inline form / not-a-command arrays) with the reference outcome "error" or an args equivalent.
 type req struct {
 	Args   [][]byte `json:"args,omitempty"`
-	Raw    []byte   `json:"raw,omitempty"`    // sent instead of the array form when set
+	Raw    []byte   `json:"raw,omitempty"`     // sent instead of the array form when set
 	RawErr bool     `json:"raw_err,omitempty"` // Raw must be answered by exactly one error
 }
 
@@ -38,16 +41,26 @@ type connCase struct {
 }
 
 type pipeCase struct {
-	Layout sim.Layout  `json:"layout"`
-	Conns  []connCase  `json:"conns"`
-	Delays [][]int     `json:"delays"` // per node: reply delays in microseconds, cycled
+	Layout sim.Layout `json:"layout"`
+	// transparent compression enabled (threshold far above every generated value, so nothing is compressed): the commands
+	// documented as disabled under compression are stopped by the backend-side filter and answered with an error
+	Compress bool `json:"compress,omitempty"`
+	// the per-backend writer is held for this long each time it takes a request off its queue (pause point
+	// write.got-req), so that requests queue up behind it as they do when the backend socket is slow
+	SlowWriterUs int        `json:"slow_writer_us,omitempty"`
+	Conns        []connCase `json:"conns"`
+	Delays       [][]int    `json:"delays"` // per node: reply delays in microseconds, cycled
 }
 
 type pipeInfo struct {
 	inversions  int
 	multiNode   bool
 	hostileName bool
+	// a request was stopped by the backend-side filter (answered without being written to the backend)
+	stoppedByFilter bool
 }
+
+var disabledUnderCompression = map[string]bool{"append": true, "eval": true, "setbit": true, "getbit": true, "setrange": true, "getrange": true}
 
 const replyTimeout = 20 * time.Second
 
@@ -64,13 +77,31 @@ func checkPipe(c pipeCase) (inf pipeInfo, v *verdict) {
 		return inf, nil
 	}
 	defer w.Close()
-	px, err := sim.StartProxy(sim.ProxyOpts{Seeds: w.Addrs(w.Masters())})
+	// The layout never changes in this part, so the periodic slot refresh runs at its production rate (2 min) and not at
+	// the 50 ms the simulator otherwise uses: a CLUSTER NODES request every 50 ms on a random backend connection would
+	// push along (flush) whatever an earlier request left behind there and hide a stuck reply.
+	of, om := sim.SetRefreshTimers(2*time.Minute, 5*time.Second)
+	defer sim.SetRefreshTimers(of, om)
+	opts := sim.ProxyOpts{Seeds: w.Addrs(w.Masters())}
+	if c.Compress {
+		opts.Compression = &redispb.Compression{Enable: true, Algorithm: redispb.Compression_SNAPPY, Threshold: 1 << 20}
+	}
+	px, err := sim.StartProxy(opts)
 	if err != nil {
 		return inf, &verdict{"proxy-start", err.Error()}
 	}
 	defer px.Stop(20 * time.Second)
 	if !px.WaitTableLoaded(1, 10*time.Second) {
 		return inf, &verdict{"table-not-loaded", "the routing table was not loaded within 10s on a healthy cluster"}
+	}
+	if c.SlowWriterUs > 0 {
+		hold := time.Duration(c.SlowWriterUs) * time.Microsecond
+		verifpoint.SetHandler(func(name string, arg interface{}) {
+			if name == "redis.client.write.got-req" {
+				time.Sleep(hold)
+			}
+		})
+		defer verifpoint.SetHandler(nil)
 	}
 	w.ResetLog()
 	delays := c.Delays
@@ -93,6 +124,11 @@ func checkPipe(c pipeCase) (inf pipeInfo, v *verdict) {
 		for _, r := range cc.Reqs {
 			if r.Raw != nil && r.RawErr {
 				exps[ci] = append(exps[ci], exp{reply: ref.ErrV("error")})
+				continue
+			}
+			if c.Compress && len(r.Args) > 0 && disabledUnderCompression[strings.ToLower(string(r.Args[0]))] {
+				exps[ci] = append(exps[ci], exp{reply: ref.ErrV("error")})
+				inf.stoppedByFilter = true
 				continue
 			}
 			rep, be, local := sim.Expect(ks, r.Args)
@@ -239,6 +275,8 @@ func genReq(t *rapid.T, pool *gen.KeyPool) req {
 
 func genPipe(t *rapid.T) pipeCase {
 	c := pipeCase{Layout: sim.Layout{Masters: rapid.IntRange(1, 5).Draw(t, "masters"), Kind: rapid.SampledFrom([]string{"even", "striped", "random", "ranges"}).Draw(t, "kind"), Seed: rapid.Uint64().Draw(t, "lseed")}}
+	c.Compress = rapid.IntRange(0, 3).Draw(t, "compress") == 0
+	c.SlowWriterUs = rapid.SampledFrom([]int{0, 0, 0, 50, 300, 2000}).Draw(t, "slowwriter")
 	nc := rapid.IntRange(1, 4).Draw(t, "conns")
 	maxN := 80
 	if vh.Thorough() && rapid.IntRange(0, 9).Draw(t, "long") == 0 {
@@ -308,6 +346,9 @@ func TestPipeline(t *testing.T) {
 		}
 		if inf.multiNode {
 			vh.Rec().Class("pipeline", "split_request_spans>=2_nodes")
+		}
+		if inf.stoppedByFilter {
+			vh.Rec().Class("pipeline", "request_stopped_by_backend_filter_in_pipeline")
 		}
 		if inf.hostileName {
 			vh.Rec().Class("pipeline", "command_name_with_CR_LF_NUL")
